@@ -72,6 +72,12 @@ def AppU.counted (a : AppU) : Bool := a.qos != qBE || a.base == 0 || a.base != 1
 def annoReserved (kind resMilli nCpus : Int) : Int :=
   if kind == 1 then resMilli else if kind == 2 then nCpus * 1000 else 0
 
+/-- … together with the annotation's `applyPolicy` (0 = absent, 1 = `""`, 2 = `Default`, 3 = `ReservedCPUsOnly`,
+    4 = a value the API does not define).  util.GetNodeReservationFromAnnotation -> GetNodeReservationResources and
+    helpers.GetNodeResourceReserved never read the field (only TrimNodeAllocatableByNodeReservation, a scheduler-side
+    helper, does): the koordlet budget reserves the amount under EVERY policy. -/
+def annoReservedP (_policy kind resMilli nCpus : Int) : Int := annoReserved kind resMilli nCpus
+
 /-- helpers.GetNodeResourceReserved: max(max(capacity - allocatable, 0), annotation reservation). -/
 def nodeReserved (cap alloc anno : Int) : Int :=
   let k := cap - alloc
